@@ -167,3 +167,27 @@ PROPS["C13"] = dict(
     level_note="Known findings D18 (lenient chunk-size lines) and D19 (incomplete zstd frame streamed) are reported as KNOWN-FINDING. Fixed: D17.",
     technique="contract-based deductive verification (VCs from the real AST incl. the inlined context manager, z3) + bounded truncation/corruption sweeps on an in-memory network",
 )
+
+PROPS["C17"] = dict(
+    contracts=[], extra=["extra.c17_locks.check"], bounded=["c17"], level="other", trusted_base=COMMON_TRUSTED,
+    assumptions=[], not_decided=["sockets of an evicted pool are closed 'once nothing uses it any more' (weakref finalizer / GC): not decided",
+                                 "in-flight responses of an evicted pool finish: follows from PoolManager never closing pools (no dispose callback); GC clause not decided"],
+    explanation="Two parts. (1) Lock-discipline obligations recomputed from the real ASTs on every run (discharged by evaluation): every access to RecentlyUsedContainer._container is inside `with self.lock`, the dispose callback is only "
+                "called outside the lock, PoolManager's lookup-or-create is one critical section of pools.lock, PoolManager's container has no dispose callback. (2) BOUNDED: the container against a reference LRU with a dispose log for every "
+                "operation sequence <= 5/6 over 3 keys x maxsize 0..3 (1.1e6 quick), PoolManager pool identity/bound for all request sequences <= 5 over 4 origins, and seeded real-thread runs. The sequential LRU semantics per critical section "
+                "is decided by the bounded part only (an OrderedDict model is not in the VC generator).",
+    level_text="Lock-discipline obligations (syntactic, complete) + bounded reference-LRU equivalence (exhaustive for short sequences): linearizability follows from the two by the trusted lock-discipline meta-theorem; not a deductive proof of the LRU semantics.",
+    level_note="GC/finalizer clauses not decided. Thread runs are a seeded sample (the scheduler picks interleavings); the lock-discipline obligations are what covers all interleavings.",
+    technique="syntactic lock-discipline obligations over the real AST + exhaustive bounded contract check against a reference LRU",
+)
+
+PROPS["C16"] = dict(
+    contracts=[], bounded=["c16"], level="other", trusted_base=COMMON_TRUSTED,
+    assumptions=["reference multimap: assignment replaces values and display name and keeps the entry's position; add appends (combine joins into the last value); names compare case-insensitively; the first-seen (or last-set) casing is displayed"],
+    not_decided=["no deductive obligations: an ordered-dict + per-entry list model with whole-view postconditions was designed (DESIGN section 5 C16) but is not in the VC generator; the property is decided only within the stated bound"],
+    explanation="BOUNDED only: HTTPHeaderDict against a reference case-insensitive order-preserving multimap, all observations compared after every step, for every operation sequence up to length 3 (quick) / 4 (thorough) over 36 operations and seeded random sequences up to length 30, "
+                "including copies / unions / constructor copies whose both sides are mutated afterwards (independence).",
+    level_text="Bounded stand-in only (exhaustive short histories + random long ones against a reference model through the real class): complete within the bound, not a proof.",
+    level_note="No contract proof for this property; labelled bounded in the evidence.",
+    technique="exhaustive bounded contract check of the real HTTPHeaderDict against a reference multimap (stand-in for the planned data-structure invariant proof)",
+)
